@@ -103,6 +103,27 @@ def history_program(rng, counters):
             tr.append(["pickle", sorted(map(list, m2.dump())), sorted(map(str, m2.tasks))])
         except Exception as exc:
             tr.append(["pickle", "E:" + type(exc).__name__])
+    # a generated setter over 2-3 locations (expression-defined ones included) is one more manager operation whose
+    # outcome must not depend on the build or the hash seed
+    floats = [l for l in hg.locs if l["kind"] == "float"]
+    defined = [l for l in floats if hg.shadow.ckey(l["path"]) in hg.shadow.defs]
+    leaves = [l for l in floats if l["group"] == "leaf"]
+    if len(defined) >= 2 and leaves and rng.random() < 0.8:
+        # several arguments that are themselves expression-defined, plus a leaf most of them depend on
+        picks = rng.sample(defined, min(len(defined), rng.randrange(2, 5))) + [rng.choice(leaves)]
+    else:
+        picks = rng.sample(floats, min(len(floats), rng.randrange(2, 4)))
+    vals = [rng.choice([0.5, -1.5, 2.0, 7.0]) for _ in picks]
+    if not hg.shadow.ftasks and not hg.shadow.knobs and not partial:
+        try:
+            fn = runner.mgr.gen_fun("setter", **{"a%d" % i: runner.mkref(l["path"]) for i, l in enumerate(picks)})
+            fn(*vals)
+            tr.append(["gen_fun", "ok", contents(runner)])
+        except Exception:
+            # (generated code uses plain Python arithmetic: a zero division or a floor()/ceil() text raises, and WHICH of
+            #  several failing statements is met first depends on the valid order chosen; only the fact is recorded)
+            tr.append(["gen_fun", "E"])
+        counters["generated_setters_transcribed"] = counters.get("generated_setters_transcribed", 0) + 1
     flagged = mgrmon.shadow_structural_cycle(hg.shadow, runner)
     return [hg.world, ops], tr, digest(runs) + ":" + digest(signs), flagged, len(hg.shadow.defs) >= 3
 
